@@ -7,7 +7,7 @@ import os
 import vlib
 
 FIELD_NAMES = {0: "number of steps", 1: "result", 2: "session returned by Start", 3: "cookies", 4: "script results",
-               5: "session after script", 6: "persistence calls", 7: "cache", 8: "store", 9: "jar", 10: "clock", 11: "ids drawn"}
+               5: "session after script", 6: "persistence calls", 7: "cache", 8: "store", 9: "jar", 10: "clock", 11: "ids drawn", 12: "Expired() of stored records"}
 
 
 def run_family(binary, family, seed, n, args="", tag=""):
